@@ -99,5 +99,94 @@ def run_units(c, facts, rule_prefix='C16', scope=None, must=None):
     c.floor(R1, 'functions analysed', len([q for q in (scope or SCOPE) if facts.fn(q)]), 12)
 
 
+def r3_clamp(c, facts):
+    """once the requested line is reached the line counter never advances: a column past the end of a line clamps there"""
+    import mirflow as MF
+    R = c.rule('C16.R3', 'CLAMP: on the requested line the scan stops at the line break (the line counter cannot advance past the requested line)')
+    fn = c.anchor(R, 'oal_client::lsp::unicode::position_to_utf8')
+    u = U.Units(fn).solve()
+    incs = [(acc, sb) for acc, ln, inc, unit, sb in u.accumulators() if unit == 'L']
+    cmps = []
+    for b, blk in fn.blocks():
+        sw = blk['term']
+        if sw['t'] != 'switch' or 'l' not in sw['discr']:
+            continue
+        for s in blk['stmts']:
+            if s['s'] == 'assign' and s['place']['l'] == sw['discr']['l'] and s['rv']['r'] == 'binop' and s['rv']['op'] == 'Eq':
+                us = [u.op_unit(o) for o in (s['rv']['a'], s['rv']['b'])]
+                fields = [MF.field_path(o)[-1:] for o in (s['rv']['a'], s['rv']['b']) if 'l' in o]
+                if us == ['L', 'L'] or ['line'] in fields:
+                    f_t = [x for v, x in sw['targets'] if v == '0']
+                    cmps.append((b, sw['otherwise'], f_t[0] if f_t else None))
+    if not incs or not cmps:
+        c.bad(R, 'clamp-structure-not-found', 'position_to_utf8: cannot find the line counter and its comparison with position.line')
+        return
+    for acc, sb in incs:
+        for cb, t_true, t_false in cmps:
+            if sb in fn.reachable_from(t_true, avoid=[cb]):
+                c.bad(R, 'line-advances-on-requested-line', 'position_to_utf8 can advance the line counter while already on the requested line: a column beyond the end of an LF-terminated line is not clamped to that line')
+            else:
+                c.ok(R, {'line counter': 'advances only before the requested line is reached'})
+    # the scan stops at '\n' and '\r' on the requested line
+    stops = set()
+    for cb, t_true, t_false in cmps:
+        region = fn.reachable_from(t_true, avoid=[cb])
+        for b in region:
+            for s in fn.mir['blocks'][b]['stmts']:
+                if s['s'] == 'assign' and s['rv']['r'] == 'binop' and s['rv']['op'] == 'Eq':
+                    for o in (s['rv']['a'], s['rv']['b']):
+                        if o.get('o') == 'const' and o.get('val') in ('10', '13'):
+                            stops.add(o['val'])
+    if stops == {'10', '13'}:
+        c.ok(R, {'on the requested line': 'the scan tests for LF and CR'})
+    else:
+        c.bad(R, 'eol-tests:%s' % ','.join(sorted(stops)), 'on the requested line position_to_utf8 tests only %s as end of line (expected LF and CR)' % sorted(stops))
+
+
+def r4_range_ends(c, facts):
+    import mirflow as MF
+    R = c.rule('C16.R4', 'RANGE-ENDS: both ends of a span are converted against the same, whole text')
+    fn = c.anchor(R, 'oal_client::lsp::unicode::utf8_range_to_position')
+    idx = MF.defs_index(fn)
+    conv = P.call_blocks(fn, 'unicode::utf8_to_position')
+    if len(conv) != 2:
+        c.bad(R, 'range-conversions=%d' % len(conv), 'utf8_range_to_position performs %d conversions (expected one per end)' % len(conv))
+        return
+    ends = []
+    for b, t in conv:
+        tx = MF.slice_back(fn, t['args'][0]['l'], idx)
+        ix = MF.slice_back(fn, t['args'][1]['l'], idx)
+        whole = tx['args'] == {1} and not [n for n, _, _ in tx['calls'] if P.strip(n).split('::')[-1] not in ('deref', 'as_ref', 'borrow')]
+        fld = None
+        for l in ix['locals'] | {t['args'][1].get('l')}:
+            for kind, bi, s in idx.get(l, []):
+                if kind == 'assign' and s['rv']['r'] == 'use' and 'l' in s['rv']['op'] and s['rv']['op']['l'] == 2:
+                    fp = MF.field_path(s['rv']['op'])
+                    fld = fp[-1] if fp else fld
+        if MF.field_path(t['args'][1])[-1:] and t['args'][1].get('l') == 2:
+            fld = MF.field_path(t['args'][1])[-1]
+        pure = not ix['calls']
+        ends.append((fld, whole, pure, t['dest']['l']))
+    if sorted(e[0] or '?' for e in ends) == ['end', 'start'] and all(e[1] and e[2] for e in ends):
+        c.ok(R, {'conversions': 'utf8_to_position(text, range.start) and utf8_to_position(text, range.end)'})
+    else:
+        c.bad(R, 'range-end-conversion', 'utf8_range_to_position no longer converts range.start and range.end each against the whole text (found %s)' % [(e[0], 'whole text' if e[1] else 'other text', 'plain offset' if e[2] else 'computed offset') for e in ends])
+    # the returned Range is built from the two results directly
+    for b, blk in fn.blocks():
+        for s in blk['stmts']:
+            if s['s'] == 'assign' and s['place']['l'] == 0 and s['rv']['r'] == 'aggr' and s['rv'].get('adt', '').endswith('Range'):
+                srcs = []
+                for op in s['rv']['ops']:
+                    sl = MF.slice_back(fn, op['l'], idx, through_calls=False) if 'l' in op else {'calls': [], 'aggrs': []}
+                    direct = len(sl['calls']) == 1 and not sl['aggrs']
+                    srcs.append(direct)
+                if all(srcs):
+                    c.ok(R, {'returned range': 'the two conversion results, unmodified'})
+                else:
+                    c.bad(R, 'range-ends-recomputed', 'utf8_range_to_position post-processes the converted positions (relative arithmetic on line/character)')
+
+
 def run(c, facts):
     c.run(lambda c: run_units(c, facts))
+    c.run(r3_clamp, facts)
+    c.run(r4_range_ends, facts)
